@@ -79,7 +79,7 @@ func (c *c30MDev) NotifyPortFree(port messaging.Port)                {}
 func VerifC30_MeshBuilt() {
 	w := 1 + verifrt.Choice("w", verifrt.Bound("w", 2, 3))
 	h := 1 + verifrt.Choice("h", 2)
-	d := 1 + verifrt.Choice("d", 2)
+	d := 1 + verifrt.Choice("d", 3) // depth 3 exceeds the initial grid capacity (8x8x2): the grid regrows while tiles are added
 	c := NewConnector().WithEngine(timing.NewSerialEngine())
 	c.CreateNetwork("Mesh")
 	ports := map[[3]int]messaging.RemotePort{}
